@@ -276,7 +276,7 @@ impl Property for C08 {
         true
     }
     fn rule(&self) -> String {
-        "one run = one base scenario (valid multi-file program with include chain, a repo preprocessor testcase over its directory, a corpus snippet, or a mutated / token-soup text) and a batch of executions of it: the fault-free control, a transparent-fault control (short reads down to 1 byte, EINTR) whose digest must equal the control, and single faults / small fault sets on the file-system surface. quick: 24 sampled fault sets per run; thorough: EVERY single fault of the scenario: each file x {ENOENT, EACCES, EMFILE, is-a-directory, invalid UTF-8 tail, TOCTOU vanish/appear}, truncate_at(k) for every byte offset k, corrupt(k,b) for every k and b in 12 bytes, EIO at 17 offsets. Entry points: preprocess/parse_sv/parse_lib on the path, and the delivered top bytes through preprocess_str/parse_sv_str/parse_lib_str and the raw parsers, both allow_incomplete values; after an Ok the tree is iterated (plain and events), formatted with Display and Debug, every node converted with Locate::try_from, every token looked up with get_origin/get_str. Oracle: no panic, no process death; an Err caused by a failed open must be Include^d(File{path tried}), by non-UTF-8 bytes Include^d(ReadUtf8(file)), by a read error any Err. distinct = hash(scenario, fault set); non-trivial iff a planned fault fired during the call or it is a control".into()
+        "one run = one base scenario (valid multi-file program with include chain, a repo preprocessor testcase over its directory, a corpus snippet, or a mutated / token-soup text) and a batch of executions of it: the fault-free control, a transparent-fault control (short reads down to 1 byte, EINTR) whose digest must equal the control, and single faults / small fault sets on the file-system surface. quick: 24 sampled fault sets per run; thorough: EVERY single fault of the scenario: each file x {ENOENT, EACCES, EMFILE, is-a-directory, invalid UTF-8 tail, TOCTOU vanish/appear}, truncate_at(k) for every byte offset k, corrupt(k,b) for every k and b in 12 bytes, EIO at 17 offsets. Entry points: preprocess/parse_sv/parse_lib on the path, and the delivered top bytes through preprocess_str/parse_sv_str/parse_lib_str and the raw parsers, both allow_incomplete values; after an Ok the tree is iterated (plain and events), formatted with Display and Debug, every node converted with Locate::try_from, every token looked up with get_origin/get_str. Oracle: no panic, no process death; an Err caused by a failed open must be Include^d(File{path tried}), by non-UTF-8 bytes Include^d(ReadUtf8(file)), by a read error any Err. distinct = hash of the base scenario; a run is non-trivial iff at least one of its planned faults fired while a call was in flight (controls alone do not count)".into()
     }
     fn assumptions(&self) -> Vec<String> {
         vec![
@@ -592,7 +592,8 @@ impl Property for C08 {
                 }
             }
         }
-        rep.nontrivial = rep.probes.get("faulted_execs").cloned().unwrap_or(0) > 0 || rep.probes.get("control_execs").cloned().unwrap_or(0) > 0;
+        // a run counts only if at least one planned fault actually fired while a call was in flight
+        rep.nontrivial = rep.probes.get("faulted_execs").cloned().unwrap_or(0) > 0;
         rep.distinct_key = sc.hash();
         rep.sample = Some(json!({
             "family": sc.family,
